@@ -793,6 +793,8 @@ func c08Replay(a vh.Args, o *vh.Oracle, r *vh.Result, c *c08Case) error {
 		return c08ConcurrentKill(a, r, c)
 	case "extract-inplace-existing":
 		return c08InplaceExisting(a, r, c)
+	case "extract-seeddir":
+		return c08SeedDir(a, r, c)
 	case "extract-noroom":
 		return c08NoRoom(a, r, c)
 	case "extract-syscall-kill":
